@@ -161,7 +161,7 @@ def run_history(h, ctx, farmer=None):
                     elif k in ('grow', 'growmissing'):
                         if op.get('fail'):
                             with open(failfile, 'w') as fh:
-                                json.dump([fns.code_of_ranks(l, sz) for l in op['fail']], fh)
+                                json.dump({'codes': [fns.code_of_ranks(l, sz) for l in op['fail']], 'exc': op.get('exc', 'ValueError')}, fh)
                         try:
                             via = op.get('via', 'crop')
                             if k == 'growmissing': crop.grow_missing(verbosity=0)
